@@ -1,6 +1,7 @@
 """C08 - design space graphs behave as persistent values (DESIGN.md 6/C08)"""
 from collections import Counter
 from hypothesis import strategies as st
+from ..strat import ints
 from .. import specs, build
 from ..core import Result, viol, exc_sig
 from ..observe import dv_meta, lcg_vectors
@@ -15,6 +16,8 @@ RULE = ('cases = generated DSG spec (G-SEL u G-CONN with grouping nodes over con
         'and EVERY member is re-observed after EVERY operation; one evaluation = one operation; non-trivial = pool >= 3 '
         'with a grouping node whose members differ in existence between two members, or a constraint / value set on a '
         'copy; distinct by sha1(case)')
+FUZZ_MODULES = ['adsg_core.graph.adsg', 'adsg_core.graph.adsg_basic', 'adsg_core.graph.choices', 'adsg_core.graph.traversal']   # thorough tier: atheris campaign over these modules (vf/fuzz.py)
+FUZZ_RUNS = 1500
 BUDGET = {'quick': 200, 'thorough': 4000}
 OPS = ['copy', 'apply_sel', 'apply_sel', 'apply_sel', 'apply_conn', 'apply_conn', 'constrain', 'set_dv', 'set_metric',
        'decode', 'decode', 'iterate']
@@ -23,15 +26,15 @@ OPS = ['copy', 'apply_sel', 'apply_sel', 'apply_sel', 'apply_conn', 'apply_conn'
 @st.composite
 def _case(draw, tier):
     spec = draw(specs.sel_spec(min_nodes=3, max_nodes=8, max_incompat=1, p_extra=draw(st.booleans())))
-    if draw(st.integers(0, 9)) < 7:
+    if draw(ints(0, 9)) < 7:
         spec = draw(specs.add_conns(spec, max_choices=2, small=draw(st.booleans()), start_bias=0, grp_den=1))
         # emphasise grouping nodes
     if draw(st.booleans()):
         spec = draw(specs.add_dvs(spec, max_dv=2))
-    if draw(st.integers(0, 2)) == 0:
+    if draw(ints(0, 2)) == 0:
         spec = draw(specs.add_metrics(spec, max_met=2))
-    n = draw(st.integers(3, 7 if tier == 'quick' else 10))
-    ops = [[draw(st.sampled_from(OPS)), draw(st.integers(0, 40)), draw(st.integers(0, 40)), draw(st.integers(0, 40))]
+    n = draw(ints(3, 7 if tier == 'quick' else 10))
+    ops = [[draw(st.sampled_from(OPS)), draw(ints(0, 40)), draw(ints(0, 40)), draw(ints(0, 40))]
            for _ in range(n)]
     return {'spec': spec, 'ops': ops}
 
